@@ -44,3 +44,16 @@ Proof.
   unfold disjoint in Hd. rewrite forallb_forall in Hd. specialize (Hd t Ht).
   rewrite Hin in Hd. discriminate.
 Qed.
+
+(** Generic (table-independent) reading of the per-method check. *)
+Lemma arena_method_ok_spec : forall g f,
+  arena_method_ok g f = true ->
+  mem (cg_owner f) arena_owners = true -> recv_exclusive (cg_recv f) = false ->
+  forall d, In d (do_collection_ids g) -> ~ path g (cg_id f) d.
+Proof.
+  intros g f H Hown Hrecv d Hd.
+  unfold arena_method_ok in H. rewrite Hown, Hrecv in H.
+  unfold cannot_collect in H. apply andb_prop in H. destruct H as [Hc Hdis].
+  exact (closed_unreachable g [cg_id f] (reach_from g [cg_id f]) (do_collection_ids g)
+           Hc Hdis (cg_id f) d (or_introl eq_refl) Hd).
+Qed.
